@@ -6,6 +6,8 @@ import (
 	"strconv"
 	"strings"
 
+	"github.com/pinealctx/neptune/remap"
+
 	"nvharness/lib/corr"
 	"nvharness/lib/rng"
 )
@@ -192,7 +194,70 @@ func genShape(r *rng.R, wantMulti bool) shape {
 
 // genScript: ordered => every acquisition respects the global order (shard, key id), lists ascending and duplicate free.
 func genScript(r *rng.R, tag string, ordered bool, wantMulti bool, hot bool, n int) corr.Case {
-	sh := genShape(r, wantMulti)
+	return genScriptShape(r, genShape(r, wantMulti), tag, ordered, hot, n)
+}
+
+// negShape: negative / extreme int keys (int or int64) on the modulo-routed lockers; the shard of each key is what the
+// public remap API says (uint64(v) % shards), so single-key and multi-key calls must agree on it.
+func negShape(r *rng.R) shape {
+	sh := shape{kind: r.Pick("tkg", "tkg", "tkg", "klg", "tkl"), hash: r.Pick("neg", "neg", "n64"), N: r.Range(2, 5), K: r.Range(1, 4), prime: r.PickInt(2, 3, 73, 73)}
+	if sh.kind == "klg" {
+		sh.hash = "neg"
+	}
+	if sh.kind == "tkl" {
+		sh.prime = 1
+	}
+	rm := remap.NewReMap(remap.WithPrime(uint64(sh.prime)))
+	for i := 0; i < sh.K; i++ {
+		if sh.prime == 1 {
+			sh.shards = append(sh.shards, 0)
+		} else {
+			sh.shards = append(sh.shards, rm.SimpleIndex(int(negInts[i])))
+		}
+	}
+	return sh
+}
+
+// hitShape: keys implementing remap.HitGroup on KeyLocker / KeyLockerGrp; keys routed to one shard have EQUAL Hit() but
+// are different keys, so holding one must not block the other.
+func hitShape(r *rng.R) shape {
+	sh := shape{kind: r.Pick("klg", "klg", "kl"), hash: "hit", N: r.Range(2, 5), K: r.Range(2, 4), prime: r.PickInt(1, 2, 3)}
+	if sh.kind == "kl" {
+		sh.prime = 1
+	}
+	same := r.Intn(sh.prime)
+	for i := 0; i < sh.K; i++ {
+		if r.Chance(2, 3) {
+			sh.shards = append(sh.shards, same)
+		} else {
+			sh.shards = append(sh.shards, r.Intn(sh.prime))
+		}
+	}
+	return sh
+}
+
+// genBurst: a single-shard locker holds 1024..1500 keys at once while a few ordinary keys are held by other threads
+// (readers and a writer); the burst drains; the held keys must still exclude (probes park) and nothing may leak.
+func genBurst(r *rng.R) corr.Case {
+	sh := shape{kind: r.Pick("kl", "kl", "klg", "tkl", "tkg"), hash: r.Pick("mod", "str", "xh"), prime: 1, N: 6, K: 3, shards: []int{0, 0, 0}}
+	lo := 48
+	hi := lo + r.Range(1024, 1500)
+	bw := map[bool]string{true: "w", false: "r"}[r.Chance(2, 3)]
+	lines := []string{sh.init()}
+	pre := []string{"rlock 1 0", "rlock 2 0", "lock 3 1", "rlock 1 2"}
+	if r.Bool() { // holders arrive before or after the burst
+		lines = append(lines, pre...)
+		lines = append(lines, fmt.Sprintf("burst 0 %s %d %d", bw, lo, hi), "entries")
+	} else {
+		lines = append(lines, fmt.Sprintf("burst 0 %s %d %d", bw, lo, hi), "entries")
+		lines = append(lines, pre...)
+	}
+	lines = append(lines, fmt.Sprintf("unburst 0 %s %d %d", bw, lo, hi), "entries", "counts 0", "counts 1",
+		"lock 4 0", "rlock 5 1", "lock 0 2", "counts 0", "entries", "drain", "entries")
+	return corr.Case{Tag: "burst", Lines: lines}
+}
+
+func genScriptShape(r *rng.R, sh shape, tag string, ordered bool, hot bool, n int) corr.Case {
 	if hot {
 		if k := r.Range(1, 2); k < sh.K {
 			sh.K = k
@@ -444,7 +509,7 @@ func genMalformed(r *rng.R) corr.Case {
 	lines := []string{sh.init()}
 	bad := []string{"lock", "lock 0", "lock 0 0 0", "lock x 0", "lock 0 x", "lock 99 0", "lock 0 99", "lock -1 0", "lock 00 0", "locks 0 0,,1",
 		"locks 0 ,", "locks 0 0,99", "unlocks 0", "Lock 0 0", "counts", "counts 99", "counts x", "entries 1", "drain 0", "", "  ", "rlock 0 0 extra",
-		"runlock 0 +0", "locks 0 0;1", "stress", "stress 0 10", "stress 4", "stress 17 10", "stress 4 5001", "stress x 1", "init", "init kl mod 1", "init zz mod 1 2 1 0", "init kl mod 2 2 1 0", "init tkg mod 2 2 2 0 2", "init tkg mod 2 2 2 0",
+		"runlock 0 +0", "locks 0 0;1", "burst 0 w 48", "burst 0 x 48 60", "burst 0 w 60 48", "burst 0 w 48 4000", "unburst 9 w 48 60", "stress", "stress 0 10", "stress 4", "stress 17 10", "stress 4 5001", "stress x 1", "init", "init kl mod 1", "init zz mod 1 2 1 0", "init kl mod 2 2 1 0", "init tkg mod 2 2 2 0 2", "init tkg mod 2 2 2 0",
 		"init tkg md5 2 2 2 0 1", "init tkg mod 0 2 1 0", "init tkg mod 2 0 1 0", "init tkg mod 2 17 1 0", "init tkg mod 101 2 1 0"}
 	for i := 0; i < 8; i++ {
 		switch r.Intn(3) {
@@ -567,6 +632,26 @@ func fixedCases() []corr.Case {
 	for _, init := range []string{"init kl mod 1 2 3 0 0 0", "init klg xh 3 2 3 0 1 2", "init tkl str 1 2 3 0 0 0", "init tkg mod 2 2 4 0 1 0 1", "init tkg xh 73 2 3 5 5 9"} {
 		out = append(out, mk("fixed-parallel-stress", init, "stress 8 200", "entries"))
 	}
+	// a table that has held > 1024 keys drains while two readers and a writer keep ordinary keys: they must still exclude
+	out = append(out, mk("fixed-burst", "init kl mod 1 6 3 0 0 0", "rlock 1 0", "rlock 2 0", "lock 3 1", "burst 0 w 48 1248", "entries",
+		"unburst 0 w 48 1248", "entries", "counts 0", "lock 4 0", "rlock 5 1", "counts 0", "drain", "entries"))
+	out = append(out, mk("fixed-burst", "init klg str 1 6 3 0 0 0", "burst 0 r 48 1100", "rlock 1 0", "lock 3 1", "unburst 0 r 48 1100", "entries",
+		"lock 4 0", "rlock 5 1", "drain", "entries"))
+	// negative / extreme int keys: single-key and multi-key calls must route a key to the same shard (73 shards: -5 -> 70)
+	for _, hk := range []string{"neg", "n64"} {
+		rm := remap.NewReMap(remap.WithPrime(73))
+		var shs []string
+		for i := 0; i < 4; i++ {
+			shs = append(shs, strconv.Itoa(rm.SimpleIndex(int(negInts[i]))))
+		}
+		init := "init tkg " + hk + " 73 4 4 " + strings.Join(shs, " ")
+		out = append(out,
+			mk("fixed-neg-keys", init, "lock 0 1", "locks 1 0,1", "rlock 2 1", "unlock 0 1", "rlocks 3 1,2,3", "lock 0 2", "lock 2 3", "drain", "entries"),
+			mk("fixed-neg-keys", init, "locks 0 0,1,2,3", "lock 1 0", "lock 2 2", "rlock 3 3", "unlocks 0 0,1,2,3", "drain", "entries"))
+	}
+	// HitGroup keys with equal Hit(): different keys, one shard — holding one must not block the other
+	out = append(out, mk("fixed-hit-keys", "init klg hit 2 4 3 1 1 0", "lock 0 0", "lock 1 1", "rlock 2 2", "lock 3 0", "unlock 0 0", "drain", "entries"),
+		mk("fixed-hit-keys", "init kl hit 1 4 3 0 0 0", "lock 0 0", "lock 1 1", "rlock 2 2", "rlock 3 2", "drain", "entries"))
 	// an unordered nest of single locks: a real deadlock, expected (no order discipline) — both sides must report the same stuck threads
 	out = append(out, mk("fixed-unordered-deadlock", "init kl mod 1 2 2 0 0", "lock 0 0", "lock 1 1", "lock 0 1", "lock 1 0", "drain", "entries"))
 	return out
@@ -595,6 +680,9 @@ func spec() corr.Spec {
 			return 14
 		},
 		Gen: func(r *rng.R, tier string, i int) corr.Case {
+			if i%400 == 7 { // the burst class is heavy (a thousand calls per line): a few per run
+				return genBurst(r)
+			}
 			if tier == "thorough" {
 				if enumCache == nil {
 					enumCache = enumScripts(enumDepth)
@@ -612,6 +700,10 @@ func spec() corr.Spec {
 				return genLongList(r, r.Intn(4))
 			case x < 11:
 				return genStress(r, tier)
+			case x < 17:
+				return genScriptShape(r, negShape(r), "neg-keys", true, r.Bool(), n)
+			case x < 21:
+				return genScriptShape(r, hitShape(r), "hit-keys", true, false, n)
 			case x < 30:
 				return genScript(r, "ordered-multi", true, true, false, n)
 			case x < 50:
@@ -643,7 +735,7 @@ func spec() corr.Spec {
 			}
 			return parked && calls >= 4
 		},
-		Rule: "scripts of lock/rlock/unlock/runlock/locks/rlocks/unlocks/runlocks by 2..6 threads over 1..4 keys (long-list classes: 13..24 keys on 2..3 shards, up to 15 threads) on KeyLocker, KeyLockerGrp, TKeyLocker[int|string], TKeyLockerGrp[int|string] (modulo / xxhash routing, 1,2,3,73 shards; shard patterns: one shard, opposite to key order, random); each call runs in its own goroutine until it returns or parks (quiescence from goroutine states); thorough adds every script of <= 5 valid single-key calls by 3 threads over 2 keys on all four lockers; classes: order-respecting multi-key, single-key, hot key (1..2 keys, up to 6 threads), unordered (deadlocks allowed), malformed lines, parallel-stress (G goroutines on a fresh locker, occupancy counters per key); every script ends with drain + entries; non-trivial = some call parked and >= 4 calls ran; distinct = distinct script text",
+		Rule: "scripts of lock/rlock/unlock/runlock/locks/rlocks/unlocks/runlocks by 2..6 threads over 1..4 keys (long-list classes: 13..24 keys on 2..3 shards, up to 15 threads) on KeyLocker, KeyLockerGrp, TKeyLocker[int|string], TKeyLockerGrp[int|string] (modulo / xxhash routing, 1,2,3,73 shards; shard patterns: one shard, opposite to key order, random); each call runs in its own goroutine until it returns or parks (quiescence from goroutine states); thorough adds every script of <= 5 valid single-key calls by 3 threads over 2 keys on all four lockers; classes: order-respecting multi-key, single-key, hot key (1..2 keys, up to 6 threads), unordered (deadlocks allowed), malformed lines, parallel-stress (G goroutines on a fresh locker, occupancy counters per key), burst (a 1-shard locker holds 1024..1500 keys at once, then drains, beside held ordinary keys), neg-keys (negative/extreme int and int64 keys, single- and multi-key calls mixed), hit-keys (remap.HitGroup keys with equal Hit()); every script ends with drain + entries; non-trivial = some call parked and >= 4 calls ran; distinct = distinct script text",
 		Assumptions: []string{
 			"sync.RWMutex / sync.Mutex behave as documented (writer preference; a blocked writer excludes later readers); pending writers are admitted in arrival order when nothing else runs (observed, not relied upon by the theorems: the model admits any pending writer)",
 			"a runnable goroutine eventually runs; a holder eventually unlocks (premise of the deadlock clause)",
